@@ -30,8 +30,9 @@ REPLAY_DIR = os.path.join(VERIF, 'replays') if not _SCRATCH else '/tmp/mc_scratc
 KNOWN_FILE = os.path.join(VERIF, 'known_findings.json')
 
 
-class HarnessError(Exception):
-    """The harness itself is wrong (nondeterminism not owned, seam missing...): exit 2, never a verdict."""
+class HarnessError(BaseException):
+    """The harness itself is wrong (nondeterminism not owned, seam missing, a fake that does not model a call...): exit 2,
+    never a verdict.  Derives from BaseException so that no `except Exception` in a check can turn it into a violation."""
 
 
 def bind_repo():
@@ -78,8 +79,8 @@ def _wrun(chunk):
     for idx, case in chunk:
         try:
             r = _MOD.run_case(case)
-        except HarnessError:
-            raise
+        except HarnessError as e:
+            raise RuntimeError('HARNESS ERROR: %s' % (e,))   # crosses the process boundary as an ordinary exception
         except BaseException as e:  # a crash of the harness is reported, never swallowed
             r = dict(viol=[], obs='HARNESS-CRASH', crash=''.join(traceback.format_exception(type(e), e, e.__traceback__))[-3000:])
         r['idx'] = idx
